@@ -12,14 +12,15 @@ from vlib import core
 from vlib import c09_lab as lab
 
 LEVEL = "model_checking"
-DEVS = ["gen.no_wipe", "example.overwrites", "render.nonce_leak", "gen.wipes_root", "tmp.left_behind"]
+DEVS = ["gen.no_wipe", "example.overwrites", "render.nonce_leak", "gen.wipes_root", "tmp.left_behind", "generate.not_repeatable_in_process"]
 # which invariant each deviation must break (vacuity guard, one TLC run per pair)
 BITES = [("gen.no_wipe", "INVARIANT", "GenIsFunctionOfDesign"), ("gen.no_wipe", "INVARIANT", "GenIdempotent"),
          ("gen.no_wipe", "INVARIANT", "DeterministicIsTheDesign"),
          ("example.overwrites", "PROPERTY", "ExampleNeverModifies"), ("example.overwrites", "INVARIANT", "ExampleCompletes"),
          ("render.nonce_leak", "INVARIANT", "Deterministic"), ("render.nonce_leak", "INVARIANT", "GenIsFunctionOfDesign"),
-         ("gen.wipes_root", "PROPERTY", "GenTouchesOnlyGenSubdirs"), ("tmp.left_behind", "INVARIANT", "NoLeftovers")]
-QUICK_BITES = [0, 3, 5, 7, 8]
+         ("gen.wipes_root", "PROPERTY", "GenTouchesOnlyGenSubdirs"), ("tmp.left_behind", "INVARIANT", "NoLeftovers"),
+         ("generate.not_repeatable_in_process", "INVARIANT", "GenIdempotent"), ("generate.not_repeatable_in_process", "INVARIANT", "Deterministic")]
+QUICK_BITES = [0, 3, 5, 7, 8, 9]
 
 PAIR = ("smalla", "smallb")             # the design variants behind the abstract designs 1 and 2
 ABS2REAL = {"gen/a/f": "gen/calc/service.go", "gen/b/f": "gen/store/service.go", "gen/c/f": "gen/audit/service.go",
@@ -113,7 +114,7 @@ def case_ops(events):
     ops = []
     for e in events[1:]:
         if e["ev"] in ("gen", "example"):
-            ops.append({"k": e["ev"], "d": e["d"]})
+            ops.append({"k": e["ev"], "d": e["d"], "same": bool(e.get("same"))})
         else:
             ops.append({"k": e["ev"], "p": "/".join(e["p"])})
     return ops
@@ -177,7 +178,7 @@ def report(ctx, L, refs, case, ei):
                 break
     ops = case_ops(case["events"])
     desc = "%s: after %s the directory is not what GenHistory allows: %s" % (
-        case["kind"], " ; ".join("%s %s" % (o["k"], o.get("p") or pair[o["d"] - 1]) for o in ops[:ei]),
+        case["kind"], " ; ".join("%s%s %s" % (o["k"], " (same process)" if o.get("same") else "", o.get("p") or pair[o["d"] - 1]) for o in ops[:ei]),
         "; ".join("%s %s %s" % d for d in diffs[:4]) or "see replay")
     ctx.violation(key, desc, {"kind": case["kind"], "pair": pair, "ops": ops, "strays": case["strays"], "envs": case.get("envs"),
                               "depth": case.get("depth", 0), "rejected_event": ei, "differences": [list(d) for d in diffs[:20]]})
@@ -206,9 +207,13 @@ def run(ctx):
             raise core.Infra("deviation %s violated %s instead of %s" % (dev, r.violated, inv))
     # ---------------------------------------------------------------- (G) histories from TLC
     g = ctx.gen("mc/MC_GenHistory", "gen/Gen_GenHistory.cfg", consts={"MaxOps": 4 if quick else 5}, label="Gen histories", timeout=1800)
-    preds = {core.canon(v["hist"]): v["tree"] for v in g.vectors}
-    maxlen = max(len(v["hist"]) for v in g.vectors)
-    cands = sorted(core.canon(v["hist"]) for v in g.vectors
+    vectors = [v for v in g.vectors if not any(o["same"] for o in v["hist"])]     # the command line always starts a new process
+    for v in vectors:
+        for o in v["hist"]:
+            del o["same"]
+    preds = {core.canon(v["hist"]): v["tree"] for v in vectors}
+    maxlen = max(len(v["hist"]) for v in vectors)
+    cands = sorted(core.canon(v["hist"]) for v in vectors
                    if len(v["hist"]) == maxlen and v["hist"][-1]["k"] in ("gen", "example") and nontrivial(v["hist"]))
     must = MUST[:3] if quick else MUST
     for m in must:
@@ -248,11 +253,12 @@ def run(ctx):
     with cf.ThreadPoolExecutor(max_workers=int(os.environ.get("VERIF_C09_PAR") or 8)) as ex:
         cases = list(ex.map(do, jobs))
     ctx.log("%d goa command lines run (%.0f s of process time), %d cases" % (L.goa_runs, L.goa_secs, len(cases)))
-    # in-process repetition
-    inproc = {}
+    # in-process repetition: one evaluation, Generate gen/example/gen/example in ONE process
+    def doin(d):
+        events, snaps = L.inproc(refs, d, cids, 2)
+        return {"kind": "in-process", "pair": [d], "events": events, "snaps": snaps, "strays": [], "design": d}
     with cf.ThreadPoolExecutor(max_workers=4) as ex:
-        for d, res in zip(det_designs, ex.map(lambda d: L.inproc(d, 2), det_designs)):
-            inproc[d] = res
+        cases += list(ex.map(doin, det_designs))
     # ---------------------------------------------------------------- verdicts
     nontriv = set()
     # (G) projection of TLC's histories
@@ -279,29 +285,10 @@ def run(ctx):
             nontriv.add(core.canon([c["pair"], c["run"]]))
         elif c["kind"] == "random-history":
             nontriv.add(core.canon([c["pair"], c["ops"]]))
+        elif c["kind"] == "in-process":
+            nontriv.add(core.canon(["in-process", c["pair"]]))
         ctx.cov["evaluations"] += len(c["events"]) - 1
     judge(ctx, L, refs, cases, "trace")
-    # in-process: Deterministic (one content per (command, design, path)) against the same reference
-    for d, res in inproc.items():
-        ref = dict(refs[d]["gen"])
-        ref.update(refs[d]["ex"])
-        ref.update(refs[d]["init"])
-        if res["failed"]:
-            ctx.violation("C09/inproc/command-failed", "design %s: second generator.Generate in one process failed: %s" % (d, res["stderr"][-400:]),
-                          {"kind": "inproc", "design": d, "stderr": res["stderr"]})
-            continue
-        for rd in res["rounds"]:
-            ctx.cov["evaluations"] += 1
-            if rd["cmd"] != "example":
-                continue
-            files = rd["files"]
-            bad = sorted(p for p in set(files) | set(ref) if files.get(p) != ref.get(p))
-            if bad:
-                fam = lab.family(bad[0])
-                ctx.violation("C09/inproc/%s/round%d-differs" % (fam, min(rd["round"], 2)),
-                              "design %s: generation number %d inside one process differs from the command line's output in %d files, e.g. %s" % (
-                                  d, rd["round"], len(bad), bad[:3]), {"kind": "inproc", "design": d, "round": rd["round"], "files": bad[:30]})
-            nontriv.add(core.canon(["inproc", d, rd["round"]]))
     ctx.cov["distinct_nontrivial"] = len(nontriv)
     ctx.cov["goa_command_lines_run"] = L.goa_runs
     ctx.cov["designs"] = {d: {"gen_files": len(refs[d]["gen"]), "example_files": len(refs[d]["ex"])} for d in designs}
@@ -339,32 +326,18 @@ def selftest(ctx, cases):
 def replay(ctx, rp):
     case = rp["case"]
     L = lab.Lab(ctx)
-    if case.get("kind") == "inproc":
-        refs = L.references([case["design"]])
-        res = L.inproc(case["design"], 2)
-        ref = dict(refs[case["design"]]["gen"])
-        ref.update(refs[case["design"]]["ex"])
-        ref.update(refs[case["design"]]["init"])
-        rc = 0
-        if res["failed"]:
-            print("in-process generation failed:", res["stderr"][-600:])
-            rc = 1
-        for rd in res["rounds"]:
-            bad = sorted(p for p in set(rd["files"]) | set(ref) if rd["files"].get(p) != ref.get(p)) if rd["cmd"] == "example" else []
-            print("round %d after %s: %d files differ from the command line's output %s" % (rd["round"], rd["cmd"], len(bad), bad[:5]))
-            rc = rc or (1 if bad else 0)
-        if rc:
-            print("VIOLATION property=C09 replay=(replayed)")
-        return rc
     pair = case["pair"]
     refs = L.references(list(dict.fromkeys(pair)))
     cids = lab.Cids()
-    events, snaps = L.replay(refs, pair, case["ops"], cids, case["strays"], envs=case.get("envs"), depth=case.get("depth", 0))
+    if case.get("kind") == "in-process":
+        events, snaps = L.inproc(refs, pair[0], cids, 2)
+    else:
+        events, snaps = L.replay(refs, pair, case["ops"], cids, case["strays"], envs=case.get("envs"), depth=case.get("depth", 0))
     c = {"kind": case.get("kind", "replay"), "events": events, "snaps": snaps, "strays": case["strays"], "pair": pair}
     p, _, n = write_trace(ctx, [c], "replay")
     ok, hwm, _ = ctx.trace_validate("trace/Trace_GenHistory", "trace/Trace_GenHistory.cfg", p, label="replay")
     for i, e in enumerate(events[1:], 1):
-        print("%d. %-8s %-40s -> %d files%s" % (i, e["ev"], e.get("p") and "/".join(e["p"]) or pair[e["d"] - 1], len(e["tree"]),
+        print("%d. %-8s %-40s -> %d files%s" % (i, e["ev"] + ("*" if e.get("same") else ""), e.get("p") and "/".join(e["p"]) or pair[e["d"] - 1], len(e["tree"]),
                                                "" if e.get("rc", 0) == 0 else "  (exit %d)" % e["rc"]))
     if ok:
         print("trace accepted by Trace_GenHistory (%d events)" % n)
